@@ -44,7 +44,24 @@ def gen_case(rng, depth):
     pl = rng.choice([["default"], ["default"], ["aligned"], ["packed"], ["explicit", 0]])
     c["placement"] = pl
     c["xobj_other_buffer"] = rng.random() < 0.7
+    if k != "string" and form in ("py", "np", "xobj", "kwargs") and rng.random() < 0.3:
+        c["ghost"] = ghost_of(rng, t, c["value"])
     return c
+
+
+def ghost_of(rng, t, v):
+    """a value of the same type and shape whose strings are at least as long: it occupies at least
+    the space of v, so after it is freed first-fit puts v's object where the ghost was"""
+    k = t["k"]
+    if k == "string":
+        extra = [rng.randrange(97, 123) for _ in range(rng.choice([0, 1, 7, 8, 9, 17]))]
+        s = list(v["s"]) + extra
+        return {"s": s, "size": G.slot(len(s) + 9)}
+    if k == "struct":
+        return {"f": [ghost_of(rng, ft, fv) for (_, ft), fv in zip(t["fields"], v["f"])]}
+    if k == "array":
+        return {"shape": list(v["shape"]), "items": [ghost_of(rng, t["item"], x) for x in v["items"]]}
+    return v
 
 
 def systematic_cases(rng):
@@ -261,6 +278,13 @@ def run(ctx):
         for sig, what, rep in extra:
             found = True
             report(ctx, sig, what, rep)
+    if pid == "C03":
+        import c_refs
+        rb = c_refs.BUDGET[ctx.tier]
+        extra, refcov = c_refs.c03_histories(ctx, max(50, rb["n"] // 3), rb["nops"], rb["shards"])
+        for sig, what, rep in extra:
+            found = True
+            report(ctx, sig, what, rep)
     broken_obligations_violation(ctx, obl, found)
     hist = collections.Counter(); distinct = set()
     for c, r in zip(cases, results):
@@ -270,6 +294,7 @@ def run(ctx):
         hist["static" if G.is_static(c["type"]) else "dynamic"] += 1
         if sig_type(c["type"]).startswith("array-"): hist["has-non-C-order-array"] += 1
         hist["buffer:" + c["prep"]["kind"]] += 1
+        if c.get("ghost") is not None: hist["ghost-freed-before:" + ("landed-on-it" if r.get("ghost") and r.get("off") == r["ghost"][0] else "elsewhere")] += 1
         if G.depth_of(c["type"]) >= 1:
             distinct.add(hashlib.sha1(json.dumps([c["type"], c["value"], c["form"]], sort_keys=True).encode()).hexdigest())
     k = len(cases) - 1
@@ -318,7 +343,7 @@ def replay(ctx, path):
         print("nothing to execute:", r.get("what")); return 1
     if r.get("tie") == "K-REF":
         import c_refs
-        return c_refs.c06_replay(ctx, r)
+        return c_refs.c03_replay(ctx, r) if r.get("mode") == "c03" else c_refs.c06_replay(ctx, r)
     c = r["case"]
     res = run_impl(ctx, "layout", {"cases": [c]})["results"][0]
     code = None
